@@ -52,6 +52,27 @@ fn forest_sprite(levels: &[u16], vis_mask: u64) -> Sprite {
     sp
 }
 
+/// A handle reached through `parent()` must be THE layer with that id: every accessor of it answers like the handle
+/// `file.layer(id)` does (walks at most 64 ancestors per layer). Returns a description of the first difference.
+fn ancestor_handles_differ(ase: &asefile::AsepriteFile, k: u32) -> Option<String> {
+    fn describe(l: &asefile::Layer) -> String {
+        format!("id {} name {:?} flags {:?} visible {} blend {:?} opacity {} type {:?} tilemap {} user_data {:?}", l.id(), l.name(), l.flags(), l.is_visible(), l.blend_mode(), l.opacity(), l.layer_type(), l.is_tilemap(), l.user_data())
+    }
+    fn walk(ase: &asefile::AsepriteFile, k: u32, cur: &asefile::Layer, depth: u32) -> Option<String> {
+        let up = cur.parent()?;
+        let direct = ase.layer(up.id());
+        let (a, b) = (describe(&up), describe(&direct));
+        if a != b {
+            return Some(format!("layer {}: the handle of ancestor {} reached through {} parent() call(s) says [{}] but file.layer({}) says [{}]", k, up.id(), depth + 1, a, up.id(), b));
+        }
+        if depth >= 64 {
+            return None;
+        }
+        walk(ase, k, &up, depth + 1)
+    }
+    walk(ase, k, &ase.layer(k), 0)
+}
+
 fn check_forest(sp: &Sprite, what: &str) -> (u64, Option<Violation>) {
     let mut rng = Rng::new(1);
     let mut v = Variation::none();
@@ -85,6 +106,12 @@ fn check_forest(sp: &Sprite, what: &str) -> (u64, Option<Violation>) {
         }
         if l.is_visible() != visible[i] {
             return (leaves, mk("is-visible", format!("layer {} is_visible {} expected {} (levels {:?} flags {:?})", i, l.is_visible(), visible[i], levels, flags)));
+        }
+        if n <= 4096 || i % 61 == 0 {
+            if let Some(d) = ancestor_handles_differ(&ase, i as u32) {
+                return (leaves, mk("parent-handle", d));
+            }
+            leaves += 1;
         }
         leaves += 2;
     }
@@ -311,7 +338,19 @@ pub fn run(ctx: &Ctx) -> i32 {
         // forest only arrive at the start of that second frame (layer chunks may come in any frame)
         let late_layers = i % 3 == 2 && n >= 2;
         let cel_frame: u16 = if late_layers { 1 } else { 0 };
+        let mut res_tilemap_leaves = 0u64;
         let mut sp = Sprite::blank(w, h, Fmt::Rgba, if late_layers { 2 } else { 1 });
+        // every other case: one or two tilesets, and leaves that are tilemap layers - several of them on the SAME
+        // tileset (visibility belongs to the layer, not to what it draws with)
+        let ntilesets = if i % 2 == 1 { rng.range(1, 2) as usize } else { 0 };
+        for t in 0..ntilesets {
+            let (tw, th, count) = (rng.range(1, 2) as u16, rng.range(1, 2) as u16, rng.range(2, 4) as u32);
+            let mut pixels = vec![0u8; tw as usize * th as usize * 4];
+            for _ in 0..(count - 1) as usize * tw as usize * th as usize {
+                pixels.extend_from_slice(&[rng.u8(), rng.u8(), rng.u8(), *rng.pick(&[255u8, 255, 128, 1])]);
+            }
+            sp.tilesets.push(TilesetM { id: t as u32, flags: TS_EMBED | TS_ZERO_EMPTY, count, tw, th, base_index: 1, name: format!("ts{}", t), ext: None, pixels });
+        }
         for k in 0..n {
             let has_child = k + 1 < n && levels[k + 1] > levels[k];
             let mut l = LayerM::image(&format!("l{}", k));
@@ -319,6 +358,16 @@ pub fn run(ctx: &Ctx) -> i32 {
             l.flags = rng.chance(3, 4) as u16 | if rng.chance(1, 3) { (rng.u32() as u16) & 0x3e } else { 2 };
             if has_child {
                 l.kind = LayerKind::Group;
+            } else if ntilesets > 0 && rng.chance(1, 2) {
+                let ts = sp.tilesets[rng.usize_below(ntilesets)].clone();
+                l.kind = LayerKind::Tilemap(ts.id);
+                if rng.chance(1, 4) {
+                    l.opacity = rng.opacity();
+                }
+                let (mw, mh) = (rng.range(1, 3) as u16, rng.range(1, 3) as u16);
+                let tiles: Vec<u32> = (0..mw as usize * mh as usize).map(|_| rng.below(ts.count as u64) as u32).collect();
+                sp.cels.insert((cel_frame, k as u16), CelM { x: rng.range(-1, w as i64) as i16, y: rng.range(-1, h as i64) as i16, opacity: if rng.chance(1, 4) { rng.opacity() } else { 255 }, content: CelContentM::Tilemap { w: mw, h: mh, tiles, masks: [0x1fff_ffff, 0x2000_0000, 0x4000_0000, 0x8000_0000] }, ud: None });
+                res_tilemap_leaves += 1;
             } else if rng.chance(4, 5) {
                 let full = rng.chance(1, 2);
                 let (cw, ch, x, y) = if full { (w, h, 0i16, 0i16) } else { (rng.range(1, w as i64) as u16, rng.range(1, h as i64) as u16, rng.range(-1, w as i64) as i16, rng.range(-1, h as i64) as i16) };
@@ -373,6 +422,10 @@ pub fn run(ctx: &Ctx) -> i32 {
                         res.violations.push(Violation::new("parent-or-visibility|stacked", format!("layer {}: parent {:?} visible {} expected {:?} / {} (levels {:?} flags {:?})", k, l.parent().map(|p| p.id()), l.is_visible(), parents[k], visible[k], levels, flags)).with_input(&bytes));
                         return res;
                     }
+                    if let Some(d) = ancestor_handles_differ(&ase, k as u32) {
+                        res.violations.push(Violation::new("parent-handle|stacked", format!("{} (levels {:?} flags {:?})", d, levels, flags)).with_input(&bytes));
+                        return res;
+                    }
                     res.leaves += 2;
                 }
                 let got = crate::val::Img::from_rgba(&ase.frame(cel_frame as u32).image(), true);
@@ -382,6 +435,7 @@ pub fn run(ctx: &Ctx) -> i32 {
                     res.violations.push(Violation::new("hidden-layer-contributes-or-visible-missing|stacked", format!("frame image differs from the composition of the visible layers only: {} (levels {:?} flags {:?}; hidden layers with cels: {:?})", d, levels, flags, hidden_celled)).with_input(&bytes).with_extra(json!({"levels": levels, "flags": flags})));
                 }
                 res.leaves += w as u64 * h as u64;
+                res.count("stacked_tilemap_leaves", res_tilemap_leaves);
                 res.count("stacked_hidden_celled_layers", (0..n).filter(|k| !visible[*k] && sp.cels.contains_key(&(cel_frame, *k as u16))).count() as u64);
                 if late_layers {
                     res.count("stacked_layer_chunks_across_frames", 1);
@@ -397,7 +451,7 @@ pub fn run(ctx: &Ctx) -> i32 {
         ctx,
         sum,
         Finish {
-            rule: "EXHAUSTIVE: every level sequence of length 1..8 with level[0]=0 and level[i]<=level[i-1]+1 (2055 sequences) x every assignment of visible flags (431058 sprites); each leaf owns a 1x1 opaque cel of unique colour at x = its index; then random forests of 9..2000 layers (a few of 65536-70000) incl. deep chains; chains to depth 65535 and subtrees of > 65535 layers; stacked forests of 2..14 layers with overlapping translucent / canvas-sized cels and random other flag bits (background, lock, collapsed) on any layer, frame image compared with the reference composition of the visible layers; distinct = distinct level sequence".into(),
+            rule: "EXHAUSTIVE: every level sequence of length 1..8 with level[0]=0 and level[i]<=level[i-1]+1 (2055 sequences) x every assignment of visible flags (431058 sprites); each leaf owns a 1x1 opaque cel of unique colour at x = its index; then random forests of 9..2000 layers (a few of 65536-70000) incl. deep chains; chains to depth 65535 and subtrees of > 65535 layers; stacked forests of 2..14 layers with overlapping translucent / canvas-sized cels and random other flag bits (background, lock, collapsed) on any layer, every other case with tilemap leaves sharing tilesets; every handle reached through parent() compared accessor by accessor with file.layer(id); frame image compared with the reference composition of the visible layers; distinct = distinct level sequence".into(),
             coverage_extra: json!({"exhaustive_sequences": nseq, "exhaustive_sprites": exhaustive_sprites, "random_forests": nrand}),
             assumptions: vec![],
             exhaustive: true,
